@@ -609,6 +609,31 @@ pub fn cmd(args: &Args) -> Report {
             rep.count("models_with_all_fault_pairs", 1);
         }
         cases.extend(pairs.into_iter().map(|(a, b)| Case { model: model.clone(), faults: vec![a, b] }));
+        // two faults in one module: its must-join task panics, later a callback of the same module panics under the
+        // catching stereotype (the module is inactive at the end of the run; the task's panic must still be reported)
+        let mut same: Vec<(Fault, Fault)> = Vec::new();
+        for fa in singles.iter().filter(|x| matches!(x.site, Site::Task(_)) && !x.try_join) {
+            if model.restart_on.get(fa.module).copied().flatten().is_some() {
+                continue;
+            }
+            // the task's step must come first (a module deactivated by the caught panic never finishes a must-join task,
+            // which is an error of its own): position of the step and of the k-th handled message in the fault-free run
+            let Site::Task(j) = fa.site else { continue };
+            let Some(step_at) = baseline.log.iter().position(|e| e.module == fa.module && e.kind == Kind::TaskStep(j)) else { continue };
+            for fb in singles.iter().filter(|x| x.module == fa.module && matches!(x.site, Site::Handle(_)) && x.catching && !x.via_send && !x.after_spawn) {
+                let Site::Handle(k) = fb.site else { continue };
+                let handled_at = baseline.log.iter().enumerate().filter(|(_, e)| e.module == fa.module && matches!(e.kind, Kind::Timer | Kind::Token(_))).map(|(i, _)| i).nth(k);
+                if handled_at.is_some_and(|h| h > step_at) {
+                    same.push((*fa, *fb));
+                }
+            }
+        }
+        if same.len() > 8 {
+            rng.shuffle(&mut same);
+            same.truncate(8);
+        }
+        rep.count("task_fault_then_caught_callback_fault_in_one_module", same.len() as u64);
+        cases.extend(same.into_iter().map(|(a, b)| Case { model: model.clone(), faults: vec![a, b] }));
         for case in cases {
             vcommon::mark_case(&format!("c13:{}:{}:{}:{}", args.seed, args.shard, i, serde_json::to_string(&case.faults).unwrap_or_default()));
             let a = execute(&case, Mode::Panic);
